@@ -135,18 +135,35 @@ func (c *context) getParent() *Config {
 }
 
 func (c *context) path(sep string) string {
-	if c.field == "" {
-		return ""
-	}
+	// collect the names up to the root. Parent links can form a ring when
+	// configurations have been removed and attached again elsewhere (a
+	// configuration keeps the parent it was attached to first): a parent met
+	// before ends the walk.
+	var names []string
+	var seen map[*Config]bool
+	for cur := c; cur.field != ""; {
+		names = append(names, cur.field)
 
-	if c.parent != nil {
-		p := c.parent.Context()
-		if parent := p.path(sep); parent != "" {
-			return fmt.Sprintf("%v%v%v", parent, sep, c.field)
+		parent := cur.getParent()
+		if parent == nil {
+			break
 		}
+		if len(names) > 16 {
+			if seen == nil {
+				seen = map[*Config]bool{}
+			}
+			if seen[parent] {
+				break
+			}
+			seen[parent] = true
+		}
+		cur = &parent.ctx
 	}
 
-	return c.field
+	for i, j := 0, len(names)-1; i < j; i, j = i+1, j-1 {
+		names[i], names[j] = names[j], names[i]
+	}
+	return strings.Join(names, sep)
 }
 
 func (c *context) pathOf(field, sep string) string {
